@@ -449,3 +449,28 @@ func IsPkgFuncCall(in ssa.Instruction, pkgPath, name string) (ssa.CallInstructio
 	}
 	return c, true
 }
+
+// RetVal returns the value returned as result i, looking through the
+// spill of results that go/ssa introduces in functions with defer
+// (`*res = v; rundefers; t = *res; return t`).
+func RetVal(r *ssa.Return, i int) ssa.Value {
+	if i >= len(r.Results) {
+		return nil
+	}
+	v := r.Results[i]
+	u, ok := v.(*ssa.UnOp)
+	if !ok || u.Op != token.MUL {
+		return v
+	}
+	a, ok := u.X.(*ssa.Alloc)
+	if !ok {
+		return v
+	}
+	instrs := r.Block().Instrs
+	for j := len(instrs) - 1; j >= 0; j-- {
+		if st, ok := instrs[j].(*ssa.Store); ok && st.Addr == ssa.Value(a) {
+			return st.Val
+		}
+	}
+	return v
+}
